@@ -1,16 +1,10 @@
 //@file src/encode/pattern/mod.rs
-//@harness c10_char_boundary_twin strength=complete bound="all 256 byte values (full domain), loop-free" timeout=300 body=body_boundary
-//@harness c10_char_starts unwind=9 strength=bounded bound="buffers of <= 6 arbitrary bytes" timeout=600 body=body_starts
-//@harness c10_maxwidth_write unwind=9 strength=bounded bound="one write of <= 6 arbitrary bytes, any remaining budget, inner writer accepting any prefix or failing" timeout=900 body=body_maxw
-//@harness c10_leftalign_write unwind=9 strength=bounded bound="one write of <= 5 arbitrary bytes, to_fill <= 7, inner writer accepting any prefix" timeout=600 body=body_left
-//@harness c10_rightalign_write unwind=9 strength=bounded bound="two writes of <= 3 bytes with a style change in between, to_fill <= 7" timeout=900 body=body_right
-//@harness c18_width_writers_forward_style unwind=4 strength=complete bound="any remaining budget / padding owed (full usize domain); loop-free" timeout=600 body=body_style
-//@harness c10_left_over_max_two_writes unwind=9 strength=bounded bound="valid UTF-8 text of <= 2 scalar values drawn from {a, e-acute, euro, U+1F600} split into two writes at a character boundary; M <= 3, m <= 4" timeout=1500 body=body_left_max
-// Width machinery below `finish`: MaxWidthWriter cuts at a lead byte and then acts as a sink; the align writers count
-// lead bytes (scalar values), not bytes. Oracles are written from the statement (first M characters, m - chars padding).
+//@harness c18_width_writers_forward_style_c18 unwind=4 strength=complete bound="any remaining budget / padding owed (full usize domain); loop-free" timeout=600 body=body_style
+// C18: "each highlighted group [is] followed by a reset": the reset is a style change that must pass through the width
+// writers whatever is left of the width budget. (Same module text as kani/c10_writers.rs, one harness.)
 #[cfg(any(kani, verif_replay))]
 #[allow(dead_code, unused)]
-mod __verif_c10 {
+mod __verif_c18_style {
     use super::*;
     use crate::__verif_rt::*;
     use crate::{__verif_ob, __verif_cover};
@@ -180,11 +174,5 @@ mod __verif_c10 {
         __verif_ob!("left-over-max#post padding owed = m - characters emitted", to_fill == if keep >= mn { 0 } else { mn - keep });
     }
 
-    #[cfg(kani)] #[kani::proof] fn c10_char_boundary_twin() { let mut s = Src::new(); body_boundary(&mut s); }
-    #[cfg(kani)] #[kani::proof] #[kani::unwind(9)] fn c10_char_starts() { let mut s = Src::new(); body_starts(&mut s); }
-    #[cfg(kani)] #[kani::proof] #[kani::unwind(9)] fn c10_maxwidth_write() { let mut s = Src::new(); body_maxw(&mut s); }
-    #[cfg(kani)] #[kani::proof] #[kani::unwind(9)] fn c10_leftalign_write() { let mut s = Src::new(); body_left(&mut s); }
-    #[cfg(kani)] #[kani::proof] #[kani::unwind(9)] fn c10_rightalign_write() { let mut s = Src::new(); body_right(&mut s); }
-    #[cfg(kani)] #[kani::proof] #[kani::unwind(4)] fn c18_width_writers_forward_style() { let mut s = Src::new(); body_style(&mut s); }
-    #[cfg(kani)] #[kani::proof] #[kani::unwind(9)] fn c10_left_over_max_two_writes() { let mut s = Src::new(); body_left_max(&mut s); }
+    #[cfg(kani)] #[kani::proof] #[kani::unwind(4)] fn c18_width_writers_forward_style_c18() { let mut s = Src::new(); body_style(&mut s); }
 }
